@@ -1,17 +1,43 @@
 /-
   C11 -- retrospective preparation conserves experiments; the hold-out split partitions.
 
-  Only the property theorems (and examples showing the hypotheses are satisfiable).  The model is `Model/Prep.lean`
-  (validated against /repo by `harness/c11.py`); helper lemmas live in `Lemmas/Prep*.lean`.
+  CLAUSE MAP (property text -> theorem; the model is `Model/Prep.lean` + `Model/PrepShipped.lean`, the functions the driver executes)
 
-  Reading guide.  `rowsOf s` are the experiments of a screen as records (sample, treatment names, doses, observation bits,
-  plate, mask).  Every randomised operation takes the values the generator returned as an explicit argument and checks the
-  generator contract on them; "the operation returned `.ok`" therefore quantifies over **all** logs satisfying the contract.
+   1. "Plate generation and plate smoothing never invent, alter or duplicate an experiment: every output experiment is an input
+      experiment with the same sample, treatments, doses and observation value"
+                                -> C11_generator_conserves (permutation of the rows without plate label, mask included),
+                                   C11_smoother_subcollection (sub-multiset; every shipped smoother incl. the ensemble),
+                                   C11_initial_plate_conserves (initial-plate generator: same experiments, same order)
+   2. "generators keep all of them"            -> C11_generator_conserves, C11_initial_plate_conserves; C11_permutation_labels (labels too)
+   3. "smoothers keep a sub-collection"        -> C11_smoother_subcollection; C11_dropping_smoothers_keep_labels, C11_merge_relabels_only,
+                                                  C11_merge_conserves (stronger than the text: merging drops nothing)
+   4. "the already observed part of the screen passes through unchanged and still observed"
+                                -> C11_observed_passthrough (same records, same order, for every generator and smoother)
+   5. "The hold-out split partitions its input (training plus hold-out equals the input as multisets, plate labels included)"
+                                -> C11_holdout_partition, C11_holdout_partition_random
+   6. "takes ceil(fraction x size) experiments from each unobserved plate and none from observed plates"
+                                -> C11_holdout_counts (every count function kf), C11_holdout_counts_fraction (kf = ceil(size x q) for a
+                                   rational fraction q in [0,1]: the count is that ceiling, is <= size, is 0 for q = 0 and the whole plate
+                                   for q = 1), C11_holdout_fraction_zero (q = 0: hold-out empty, training = input);
+                                   C11_holdout_counts_random, C11_holdout_counts_random_fraction
+   7. "marks the hold-out fully observed and leaves the training mask as it was"
+                                -> C11_holdout_masks, C11_holdout_masks_random (training = sub-list of the input RECORDS)
+   quantifier "every fraction in [0,1] including 0 and 1"  -> the `_fraction` theorems (Lemmas/PrepCeil.lean: ceilCount over Q);
+              "any generator state"                        -> all theorems quantify over every choice log satisfying the generator contract
+   end to end (cli/prepare_retrospective_simulation)       -> Props/C11Pipeline.lean
+   model consistency                                       -> C11_select_is_to_screen, C11_combo_filter_subcollection
+
+   harness-only: (a) rounding -- that `math.ceil(size * fraction)` at IEEE double equals ceil of the exact product (Lean's `Float` is
+   opaque; the driver executes it and the harness compares per-plate counts); (b) numpy's generator laws -- `permutation` returns a
+   permutation, `choice(replace=False)` k distinct members, `heappop` a minimal plate: contract checks on the recorded log;
+   (c) container fidelity of numpy boolean-mask indexing / `isin` / `array_split` / `unique` (modelled on lists, tied by the driver);
+   (d) aliasing / in-place modification of the caller's screen (not expressible in a functional model: harness snapshots).
 -/
 import Batchie.Lemmas.PrepHoldout
 import Batchie.Lemmas.PrepOps
 import Batchie.Lemmas.PrepExamples
 import Batchie.Lemmas.PrepBridge
+import Batchie.Lemmas.PrepCeil
 
 namespace Batchie.Props.C11
 open Batchie.Proto Batchie.Screen Batchie.Prep
@@ -139,6 +165,55 @@ theorem C11_holdout_counts_random (kf : Nat → Nat) (choice : List Nat) (s keep
     simp only [Bool.and_true] at this
     rw [this, filter_eq_self_of_forall _ _ (by intro a _; rfl), hl]
 
+/-! ### the documented count `ceil(fraction x size)` (rational fraction in [0,1]) discharges the abstract `kf` -/
+
+/-- **Counts for the documented count function.** With `kf = ceilCount q` (`= ⌈size × q⌉`, `0 ≤ q ≤ 1`): the number of hold-out
+    experiments of plate `p` is 0 for an observed (or absent) plate and `⌈size_p × q⌉` for an unobserved one; it never exceeds
+    the plate size, is 0 when `q = 0` and is the whole plate when `q = 1`. -/
+theorem C11_holdout_counts_fraction (q : ℚ) (hq0 : 0 ≤ q) (hq1 : q ≤ 1) (r : Raw) (choices : List (List Nat)) (s keep hold : Screen)
+    (hs : mk? r = .ok s) (h : holdoutBalanced (ceilCount q) choices s = .ok (keep, hold)) (p : Name) :
+    (((rowsOf s).filter (fun x => x.plate == p)).all (·.mask) = true → ((rowsOf hold).filter (fun x => x.plate == p)).length = 0) ∧
+    (((rowsOf s).filter (fun x => x.plate == p)).all (·.mask) = false →
+        ((((rowsOf hold).filter (fun x => x.plate == p)).length : ℕ) : ℤ) = ⌈((((rowsOf s).filter (fun x => x.plate == p)).length : ℕ) : ℚ) * q⌉) ∧
+    ((rowsOf hold).filter (fun x => x.plate == p)).length ≤ ((rowsOf s).filter (fun x => x.plate == p)).length ∧
+    (q = 0 → ((rowsOf hold).filter (fun x => x.plate == p)).length = 0) ∧
+    (q = 1 → ((rowsOf s).filter (fun x => x.plate == p)).all (·.mask) = false →
+        ((rowsOf hold).filter (fun x => x.plate == p)).length = ((rowsOf s).filter (fun x => x.plate == p)).length) := by
+  have c := C11_holdout_counts r (ceilCount q) choices s keep hold hs h p
+  refine ⟨fun ho => by rw [c, ho]; rfl, fun ho => by rw [c, ho]; exact ceilCount_cast hq0 _, ?_, fun h0 => ?_, fun h1 ho => ?_⟩
+  · rw [c]; split
+    · exact Nat.zero_le _
+    · exact ceilCount_le hq0 hq1 _
+  · rw [c, h0]; split
+    · rfl
+    · exact ceilCount_zero _
+  · rw [c, ho, h1]; exact ceilCount_one _
+
+/-- **Fraction 0.** The hold-out is empty and the training screen has exactly the input records. -/
+theorem C11_holdout_fraction_zero (r : Raw) (choices : List (List Nat)) (s keep hold : Screen)
+    (hs : mk? r = .ok s) (h : holdoutBalanced (ceilCount 0) choices s = .ok (keep, hold)) :
+    rowsOf hold = [] ∧ rowsOf keep = rowsOf s := by
+  have hempty : rowsOf hold = [] := by
+    apply List.eq_nil_iff_forall_not_mem.mpr
+    intro x hx
+    have c := (C11_holdout_counts_fraction 0 (le_refl 0) (by norm_num) r choices s keep hold hs h x.plate).2.2.2.1 rfl
+    have : x ∈ (rowsOf hold).filter (fun y => y.plate == x.plate) := List.mem_filter.mpr ⟨hx, by simp⟩
+    rw [List.length_eq_zero_iff.mp c] at this
+    cases this
+  refine ⟨hempty, ?_⟩
+  have part := C11_holdout_partition (ceilCount 0) choices s keep hold h
+  have sub := (C11_holdout_masks (ceilCount 0) choices s keep hold h).2
+  rw [hempty, List.map_nil, List.append_nil] at part
+  have hl : (rowsOf keep).length = (rowsOf s).length := by simpa using part.length_eq
+  exact sub.eq_of_length hl
+
+/-- random hold-out with the documented count: `⌈n × q⌉ ≤ n` experiments are held out -/
+theorem C11_holdout_counts_random_fraction (q : ℚ) (hq0 : 0 ≤ q) (hq1 : q ≤ 1) (choice : List Nat) (s keep hold : Screen)
+    (h : holdoutRandom (ceilCount q) choice s = .ok (keep, hold)) :
+    (((rowsOf hold).length : ℕ) : ℤ) = ⌈(((rowsOf s).length : ℕ) : ℚ) * q⌉ ∧ (rowsOf hold).length ≤ (rowsOf s).length := by
+  have c := C11_holdout_counts_random (ceilCount q) choice s keep hold h
+  exact ⟨by rw [c]; exact ceilCount_cast hq0 _, by rw [c]; exact ceilCount_le hq0 hq1 _⟩
+
 /-! ### generators and smoothers (through the public `generate_plates` / `smooth_plates` wrappers)
 
   `Generator` / `Smoother` (`Model/PrepShipped.lean`) enumerate the shipped operations, each constructor carrying the
@@ -254,6 +329,8 @@ example : ∃ s kh, mk? exRaw = .ok s ∧ holdoutBalanced (fun n => (n + 1) / 2)
 example : ∃ s kh, mk? exRaw = .ok s ∧ holdoutBalanced (fun _ => 0) [[],[],[]] s = .ok kh := ex_holdout_fraction_zero
 example : ∃ s kh, mk? exRaw = .ok s ∧ holdoutBalanced (fun n => n) [[2,0],[3],[1,5,4]] s = .ok kh := ex_holdout_fraction_one
 example : ∃ s kh, mk? exRaw = .ok s ∧ holdoutRandom (fun n => (n + 1) / 2) [0,2,4,6] s = .ok kh := ex_holdout_random
+-- the `_fraction` theorems: `ceilCount (1/2) n = (n + 1) / 2`, `ceilCount 0 n = 0`, `ceilCount 1 n = n` (the count functions of the examples above)
+example : ceilCount 0 3 = 0 ∧ ceilCount 1 3 = 3 := ⟨ceilCount_zero 3, ceilCount_one 3⟩
 example : ∃ s out, mk? exRaw = .ok s ∧
     (Generator.permutation [] [[112,51],[112,49],[112,49],[112,50],[112,51],[112,51]]).wrapped s = .ok out := ex_wrapped_permutation
 example : ∃ s out, mk? exRaw = .ok s ∧ (Generator.segregating 2 [[0,3,2],[5,1,4]]).wrapped s = .ok out := ex_wrapped_segregating
